@@ -398,10 +398,11 @@ def _history_cases(rng, n):
     old = pconfig.RUNTIME_TYPE_CHECK
     pconfig.RUNTIME_TYPE_CHECK = True
     try:
-        for _ in range(n):
+        kinds = ["failed-as_obj-nested", "failed-as_obj-top", "failed-from_json", "roundtrip", "rejected-construction",
+                 "failed-as_obj-twice"]
+        for it in range(n):
             good = zoo.Bin(zoo.Leaf(v=1, s="a"), zoo.Un(zoo.Leaf(v=2)))
-            before = rng.choice(["failed-as_obj-nested", "failed-as_obj-top", "failed-from_json", "roundtrip", "rejected-construction",
-                                 "failed-as_obj-twice"])
+            before = kinds[it % len(kinds)]
             try:
                 d = good.as_dict()
                 good.detach()
